@@ -21,18 +21,28 @@ weights, whose result is a function of the combinatorics alone; a sweep over EVE
 the argument forms of the constructor: every option omitted (alone / together), by keyword, positionally in the documented order,
 for every assignment {documented default, another value} that singles out one option, against the documented meaning of the form
 (table of documented defaults pinned in the driver, also compared with inspect.signature).
+
+Round 5: needle triangles (extreme aspect ratio: staggered columns stretched by 2^e along one axis, every axis arrangement in space) under
+cotangent weights; numbering (border ids first / last / scrambled on multi-ring wheels with more than 32 vertices, so that
+mesh.boundary_vertices is not in increasing order); read-only public queries of the mesh / border API (and the documented resets) made
+between the caller's reading of mesh.boundary_vertices, the constructor and run(); user attributes whose names collide with names the
+library uses internally (every element container x 12 names x 5 storage forms x 3 moments of creation); the reading channel: after every
+run of every family the attribute the MESH holds under the name 'uv_coords' must be the coordinates the embedding object reports.
 """
 from __future__ import annotations
 import functools, math
 from mc.core import Report, call, exc_kind
 from mc import families as F
+from mc import c17_dims as X
 
 ID = "C17"
 TECHNIQUE = ("bounded-exhaustive enumeration (flip-graph BFS = all triangulations of each point set; all labelled "
              "complexes on <= 6 vertices) x all configurations of the real TutteEmbedding vs a clause-by-clause oracle; "
              "exhaustive call histories (depth 2-3) of embeddings on one mesh object vs fresh-twin runs and snapshots; "
              "exhaustive configuration switch x face order, degenerate-geometry partners, border-length sweep, unit-of-length partners; "
-             "exhaustive argument forms of the constructor (omitted / keyword / positional) vs the pinned table of documented defaults")
+             "exhaustive argument forms of the constructor (omitted / keyword / positional) vs the pinned table of documented defaults; "
+             "exhaustive needle specimens x stretch exponents x axis arrangements; exhaustive (query, position) alphabet of the caller's program; "
+             "exhaustive (container, colliding attribute name) pairs x storage forms x moments of creation; second reading channel (attribute on the mesh)")
 RULE = ("one case = (triangulated disk with its vertex numbering and orientation, geometry, boundary mode, weights); "
         "disks: every triangulation of every point set P = convex k-gon + j interior lattice points (two placement rules: "
         "nearest the centroid / inside the ears / regular-ish polygon with an inner ring) under 4 renumberings (identity, reversed, multiplicative scramble, "
@@ -50,7 +60,21 @@ RULE = ("one case = (triangulated disk with its vertex numbering and orientation
         "boundary_mode / use_cotan / verbose / save_on_corners / custom_boundary - all default, all other, each option singled out both ways -, "
         "set of omitted options in {none, each option at its default alone, all of them}, number 0..3 of options passed positionally, mesh by "
         "keyword or not, started by run() or by calling the object); expectation = the fully explicit run of the configuration the documented "
-        "signature gives the form (on a fresh twin mesh, judged clause by clause), storage, flat mesh and what log() prints")
+        "signature gives the form (on a fresh twin mesh, judged clause by clause), storage, flat mesh and what log() prints; "
+        "needles: one case = (comb of c columns x r rows in {3x3, 4x3, 3x4, 5x4, 4x5} with generic uneven gaps, stretch 2^e of the column abscissae, "
+        "long axis first / second in-plane axis, coordinate plane xy / yz / zx), uniform weights and - where the exact predicate admits them, from "
+        "2^3 on always - cotangent weights, all clauses; numbering: one case = (K-ring wheel, border numbered first / last / scrambled), all "
+        "configurations, all clauses; queries: one case = (disk, query q of the alphabet mc/c17_dims.QUERIES [18 entries: boundary / interior "
+        "vertex and edge lists, is_*_on_border, extract_border_cycle (default / given start), extract_border_cycle_all, "
+        "extract_boundary_of_surface, euler_characteristic, connectivity, is_triangular, laplacian uniform / cotan, copy, and the documented "
+        "resets clear_boundary_data(), connectivity.clear()], position of q in the caller's program: after the caller read "
+        "mesh.boundary_vertices to lay out the custom rows and before the constructor / between the constructor and run()), all "
+        "configurations, all clauses + for custom boundaries equality with the plain program; colliding user attributes: one case = (disk, "
+        "element container in vertices / edges / faces / face_corners, name in the pinned list LIBRARY_NAMES of names the library attaches itself, "
+        "storage form [sparse bool on odd ids, dense bool all true, dense float pairs, sparse int with default 5, sparse float with explicit "
+        "zeros], moment of creation [before the first border query, after it, after it followed by clear_boundary_data()]), all "
+        "configurations, all clauses + equality with the plain run for custom boundaries; reading channel: in every execution of every family "
+        "the attribute found on the mesh under 'uv_coords' (container named by save_on_corners) is compared with the object's uvs")
 ASSUMPTIONS = [
     "meshes are oriented manifold triangulated disks within the stated size bounds (plus grids up to 5x5); larger meshes are not explored",
     "cotangent weights are exercised only where an exactly evaluated predicate says: every edge weight >= 0 and every edge "
@@ -82,10 +106,29 @@ ASSUMPTIONS = [
     "observed through the public log() method of the object (prints iff verbose); calling the object runs it and returns it "
     "(Worker.__call__); assignments that ask for cotangent weights are exercised on the disks where these are admissible; "
     "a signature that differs from the table is reported as a violation of C17.defaults.signature",
+    "needles: integer coordinates k * 2^e with generic k (the gaps 3, 7, 5, 11, ... / 18, 12, 30, ... are not powers of two: with k = 2^j the cosine and "
+    "sine of the needle angle are accidentally exact in binary floating point and an inaccurate formula does not show), exact in floats (asserted), "
+    "stretch 2^0 .. 2^48 (quick: 8 exponents between 2^10 and 2^40); the cotangent weights of the oracle are computed from exact integer dot and "
+    "cross products; anisotropic scaling of the generic families (TRI(P), Delaunay inputs) leaves no admissible input (measured: 0 of 614 Delaunay "
+    "inputs at factor >= 4, the border edges face obtuse angles), so the needle family is a dedicated construction; stretches beyond 2^48 are not explored",
+    "numbering: what matters is that some border id exceeds the size (32 / 128) of the hash table of the set the library collects the border in, so that "
+    "mesh.boundary_vertices is not increasing (guarded); specimens of 33..37 (thorough: ..141) vertices",
+    "queries: every query of the alphabet is documented as a read access (or, for the two resets, as 'recomputed at the next call'), so the caller's program "
+    "with a query inserted means the same as without; a reset before the constructor in custom mode is not inserted (the caller would read "
+    "mesh.boundary_vertices again afterwards, which is the plain program); the result of a query is discarded; on circle / square targets the "
+    "statement leaves the position along the shape open, so equality with the plain run is demanded for custom boundaries only",
+    "colliding user attributes: an attribute the user creates on the mesh is part of the input 'triangulated disk' and the statement holds for every such "
+    "disk; names = string literals of the attribute calls of the unchanged tree (pinned in mc/c17_dims.LIBRARY_NAMES); the pairs (face_corners, cotan) "
+    "and (face_corners, angles) are documented caches of mouette.attributes that a cotangent run is documented to re-use, so with those only "
+    "uniform weights are run; not run under config.display_duplicate_attribute_warning=True (there create_attribute documents the hand-back of "
+    "the existing attribute)",
+    "reading channel: 'the per-vertex and per-corner outputs' are attributes stored on the mesh (docstring of save_on_corners) under the name 'uv_coords' "
+    "(pinned: mouette/mesh/io/obj.py exports the attribute of that name, the repository's suite asks for it); after a run that attribute is the "
+    "one the object reports as uvs (compared number by number, NaN equal to NaN)",
 ]
 BOUNDS = {
-    "quick": "TRI(P) for all k>=3, j>=0, k+j<=7 (3 placement rules, 3 renumberings; 473 triangulations); Delaunay triangulations of regular k-gons (k=3..7) + 1 or 2 interior points on a coarse lattice (1228); all labelled SURF(n<=5) + the 28 classes of SURF(6); grids 3x3..4x4; fans and wheels with border 9..16; zoo of non-disks (closed, annuli, two components, two holes); call histories on one mesh: 8 disks x all depth-2 sequences over {circle, square, custom} x {uniform, cotan where admissible} x {vertices, corners} + 'run again', 3 disks x all depth-3 sequences over {circle, square} x {vertices, corners} + 'run again' (978 histories); config.sort_neighborhoods False x every face in position 0 over TRI(P) k+j<=6 (3 renumberings), the labelled disks of SURF(n<=5) + SURF(6) classes, grids 3x3 / 3x4, fans and wheels 9..12, and True x every face in position 0 over TRI(P) k+j<=6, a quarter of the SURF disks and the same specimens; 5 kinds of degenerate geometry x uniform weights over TRI(P) k+j<=6, a quarter of the SURF disks, the specimens; EVERY border length 3..130 on wheels, fans, zigzag strips and 3..65 on two-ring wheels x circle / square / custom; unit of length 2^-30 and 2^30 over TRI(P) k+j<=6 (planar and lifted), every 8th Delaunay input, the specimens and sweep shapes of border 5 / 17 / 64; argument forms of the constructor: the 8 disks of the call histories x 12 assignments (6 on the disks without admissible cotangent weights) x all call forms (omitted none / one / all x positional prefix 0..3 x mesh by keyword x run()/call; 1085 calls) + signature vs the pinned table",
-    "thorough": "TRI(P) for all k>=3, j>=0, k+j<=8 (3 placement rules, 4 renumberings; 1941 triangulations); Delaunay triangulations of regular k-gons + 1..3 interior lattice points (4807); all 12934 labelled SURF(6) complexes; grids up to 5x5; fans and wheels with border 9..16; zoo of non-disks; call histories on one mesh: 18 disks x all depth-2 sequences over the 4 boundary modes x {uniform, cotan where admissible} x {vertices, corners} + 'run again', and all depth-3 sequences over {circle/uniform, square/uniform, custom/cotan, custom/uniform} x {vertices, corners} + 'run again' (10466 histories); config.sort_neighborhoods in {False, True} x every face in position 0 over TRI(P) k+j<=7 (4 renumberings), the labelled disks of SURF(n<=5) + SURF(6) classes, grids up to 4x4, fans and wheels 9..16; 5 kinds of degenerate geometry x uniform weights over TRI(P) k+j<=7 (2 renumberings), the same SURF disks and specimens; EVERY border length 3..260 on wheels, fans, zigzag strips and two-ring wheels x circle / square / custom; unit of length 2^-30 and 2^30 over TRI(P) k+j<=7 (planar and lifted, 2 renumberings), every 16th Delaunay input, the specimens and sweep shapes of border 5 / 17 / 64; argument forms of the constructor: the 18 disks of the call histories x 12 assignments (6 on the disks without admissible cotangent weights) x all call forms (omitted none / one / all x positional prefix 0..3 x mesh by keyword x run()/call) + signature vs the pinned table",
+    "quick": "TRI(P) for all k>=3, j>=0, k+j<=7 (3 placement rules, 3 renumberings; 473 triangulations); Delaunay triangulations of regular k-gons (k=3..7) + 1 or 2 interior points on a coarse lattice (1228); all labelled SURF(n<=5) + the 28 classes of SURF(6); grids 3x3..4x4; fans and wheels with border 9..16; zoo of non-disks (closed, annuli, two components, two holes); call histories on one mesh: 8 disks x all depth-2 sequences over {circle, square, custom} x {uniform, cotan where admissible} x {vertices, corners} + 'run again', 3 disks x all depth-3 sequences over {circle, square} x {vertices, corners} + 'run again' (978 histories); config.sort_neighborhoods False x every face in position 0 over TRI(P) k+j<=6 (3 renumberings), the labelled disks of SURF(n<=5) + SURF(6) classes, grids 3x3 / 3x4, fans and wheels 9..12, and True x every face in position 0 over TRI(P) k+j<=6, a quarter of the SURF disks and the same specimens; 5 kinds of degenerate geometry x uniform weights over TRI(P) k+j<=6, a quarter of the SURF disks, the specimens; EVERY border length 3..130 on wheels, fans, zigzag strips and 3..65 on two-ring wheels x circle / square / custom; unit of length 2^-30 and 2^30 over TRI(P) k+j<=6 (planar and lifted), every 8th Delaunay input, the specimens and sweep shapes of border 5 / 17 / 64; argument forms of the constructor: the 8 disks of the call histories x 12 assignments (6 on the disks without admissible cotangent weights) x all call forms (omitted none / one / all x positional prefix 0..3 x mesh by keyword x run()/call; 1085 calls) + signature vs the pinned table; needles: 5 comb sizes x 6 axis arrangements x stretch 2^e, e in {10, 14, 17, 20, 24, 27, 30, 40} (240 specimens); numbering: ring wheels (border x rings) 12x3, 7x5, 16x2 x 3 numberings; queries: 18 queries x 2 positions on 3 ring wheels (border last / scrambled) + 2 small disks with admissible cotangent weights x 4 boundary modes x weights x storage; colliding user attributes: the 8 disks of the call histories x 48 (container, name) pairs, one storage form and one moment of creation per pair by rotation over pair index + disk index (every form and every moment occurs; guarded) x 3 boundary modes x weights x storage; reading channel 'uv_coords' on the mesh: every execution",
+    "thorough": "TRI(P) for all k>=3, j>=0, k+j<=8 (3 placement rules, 4 renumberings; 1941 triangulations); Delaunay triangulations of regular k-gons + 1..3 interior lattice points (4807); all 12934 labelled SURF(6) complexes; grids up to 5x5; fans and wheels with border 9..16; zoo of non-disks; call histories on one mesh: 18 disks x all depth-2 sequences over the 4 boundary modes x {uniform, cotan where admissible} x {vertices, corners} + 'run again', and all depth-3 sequences over {circle/uniform, square/uniform, custom/cotan, custom/uniform} x {vertices, corners} + 'run again' (10466 histories); config.sort_neighborhoods in {False, True} x every face in position 0 over TRI(P) k+j<=7 (4 renumberings), the labelled disks of SURF(n<=5) + SURF(6) classes, grids up to 4x4, fans and wheels 9..16; 5 kinds of degenerate geometry x uniform weights over TRI(P) k+j<=7 (2 renumberings), the same SURF disks and specimens; EVERY border length 3..260 on wheels, fans, zigzag strips and two-ring wheels x circle / square / custom; unit of length 2^-30 and 2^30 over TRI(P) k+j<=7 (planar and lifted, 2 renumberings), every 16th Delaunay input, the specimens and sweep shapes of border 5 / 17 / 64; argument forms of the constructor: the 18 disks of the call histories x 12 assignments (6 on the disks without admissible cotangent weights) x all call forms (omitted none / one / all x positional prefix 0..3 x mesh by keyword x run()/call) + signature vs the pinned table; needles: 5 comb sizes x 6 axis arrangements x EVERY stretch 2^0..2^48; numbering: ring wheels 12x3, 7x5, 16x2, 5x7, 18x2, 20x7 x 3 numberings; queries: 18 queries x 2 positions on 4 ring wheels x 3 numberings + the non-zoo disks of the call histories, and all 324 ordered pairs (query after reading, query before run) on the 12x3 wheel numbered border last; colliding user attributes: the 18 disks of the call histories x 48 pairs x ALL 5 storage forms x ALL 3 moments of creation; reading channel on every execution",
 }
 
 SCALE = 6          # polygon of families.convex_polygon_points(k) is scaled so that it contains enough lattice points
@@ -104,7 +147,9 @@ SWEEP_MAX = {"quick": 130, "thorough": 260}
 SWEEP_SHAPES = ("wheel", "fan", "strip", "ring2")
 SWEEP_RADIUS = 1 << 16
 UNIT_EXPONENTS = (-30, 30)
-NEW_DIMENSION_FAMILIES = ("cfg", "degen", "sweep", "unit", "callform")     # run once (no warm-blackboard twin: their inputs are partners of inputs that have one)
+# run once (no warm-blackboard twin: their inputs are partners of inputs that have one). The numbering specimens of round 5 do get a warm twin.
+# The needle specimens have a warm twin as well (it exposed cot = -tan(angle + pi/2) on cached angles, repaired in /repo: see known_findings.json).
+NEW_DIMENSION_FAMILIES = ("cfg", "degen", "sweep", "unit", "callform", "query", "userattr")
 LONG_BORDER = 16     # borders longer than the ones of the enumerated families carry ':long_border' in their input class
 
 
@@ -316,6 +361,7 @@ def tasks(tier):
     out += _hist_tasks(tier)
     out += _dimension_tasks(tier)
     out += _callform_tasks(tier)
+    out += _round5_tasks(tier)
     return out
 
 
@@ -484,24 +530,63 @@ def _custom_target(disk, reverse):
     return {v: poly[i] for i, v in enumerate(disk.loop)}
 
 
+_DEV = {}            # hooks of the deviation in force: position -> function(mesh, disk, mode); see _deviation
+RESULT_NAME = "uv_coords"      # the name under which the library stores the coordinates on the mesh (io/obj.py exports it, the repository's suite asks for it)
+
+
+class _deviation:
+    """with _deviation(prepare=f, after_reading_boundary_vertices=g, between_constructor_and_run=h): every execution of the real code
+    inside the block calls the hooks at the named positions of the caller's program (build mesh - [prepare] - read mesh.boundary_vertices
+    and lay out the custom rows - [after_reading_boundary_vertices] - construct - [between_constructor_and_run] - run)."""
+
+    def __init__(self, **hooks):
+        self.hooks = hooks
+
+    def __enter__(self):
+        self.old = dict(_DEV)
+        _DEV.update(self.hooks)
+
+    def __exit__(self, *a):
+        _DEV.clear()
+        _DEV.update(self.old)
+
+
+def _hook(position, m, disk, mode):
+    fn = _DEV.get(position)
+    if fn is not None:
+        fn(m, disk, mode)
+
+
 def _make(m, disk, mode, use_cotan, soc):
     """A TutteEmbedding object for one configuration on the mesh object `m` (not run yet) + the custom target, if any."""
     import numpy as np
     from mouette.processing import parametrization as PARAM
     kw = dict(verbose=False, use_cotan=use_cotan, save_on_corners=soc)
-    target = None
-    if mode in ("circle", "square"):
-        t = PARAM.TutteEmbedding(m, boundary_mode=mode, **kw)
-    else:
+    target = arr = None
+    if mode not in ("circle", "square"):
         target = _custom_target(disk, mode == "customrev")
         bv = [int(v) for v in m.boundary_vertices]
         arr = np.array([[target[v][0], target[v][1]] for v in bv], dtype=float)
+    _hook("after_reading_boundary_vertices", m, disk, mode)
+    if arr is None:
+        t = PARAM.TutteEmbedding(m, boundary_mode=mode, **kw)
+    else:
         t = PARAM.TutteEmbedding(m, custom_boundary=arr, **kw)
     return t, target
 
 
+def _read_named(m, disk, soc):
+    """The coordinates as a consumer finds them ON THE MESH: the attribute called RESULT_NAME of the container the storage option names."""
+    cont = m.face_corners if soc else m.vertices
+    if not cont.has_attribute(RESULT_NAME):
+        return None
+    a = cont.get_attribute(RESULT_NAME)
+    return [tuple(float(x) for x in a[i]) for i in range(len(m.face_corners) if soc else disk.n)]
+
+
 def _read(t, m, disk, soc, flat=True):
-    """The numbers an embedding object holds NOW, read through its own `uvs` attribute (and its flat mesh)."""
+    """The numbers an embedding object holds NOW, read through its own `uvs` attribute (and its flat mesh), and the numbers the mesh
+    holds under the documented attribute name."""
     uv = t.uvs
     res = {}
     if soc:
@@ -510,6 +595,8 @@ def _read(t, m, disk, soc, flat=True):
         res["corner_uv"] = [tuple(float(x) for x in uv[c]) for c in range(nc)]
     else:
         res["vertex_uv"] = [tuple(float(x) for x in uv[v]) for v in range(disk.n)]
+    o = call(_read_named, m, disk, soc)
+    res["named"] = o.value if o.ok else {"error": exc_kind(o), "msg": o.msg}
     if flat:
         fm = t.flat_mesh
         res["flat"] = None if fm is None else [tuple(float(x) for x in fm.vertices[v]) for v in range(disk.n)]
@@ -520,11 +607,30 @@ def _read(t, m, disk, soc, flat=True):
 def _execute(disk, mode, use_cotan, soc):
     """Run the real code on a fresh mesh. Returns (per-vertex positions, per-corner info, flat mesh positions)."""
     m = F.build_surface(disk.fpts, disk.faces)
+    _hook("prepare", m, disk, mode)
     t, target = _make(m, disk, mode, use_cotan, soc)
+    _hook("between_constructor_and_run", m, disk, mode)
     t.run()
     res = _read(t, m, disk, soc)
     res["target"] = target
     return res
+
+
+def _same_float(x, y):
+    return x == y or (x != x and y != y)
+
+
+def stored_clause(rep: Report, res, subcheck, cls, detail):
+    """The coordinates found on the mesh under RESULT_NAME (container = the storage option) are the ones the object reports."""
+    rep.evaluations += 1
+    named, nums = res.get("named"), _numbers(res)
+    if (isinstance(named, list) and len(named) == len(nums)
+            and all(len(p) == len(q) and all(_same_float(x, y) for x, y in zip(p, q)) for p, q in zip(named, nums))):
+        rep.count("stored_on_mesh_ok")
+        return True
+    rep.violation(subcheck, "TutteEmbedding.run", "mismatch:mesh_attribute_is_not_the_result_of_the_run", cls,
+                  dict(detail, attribute=RESULT_NAME, on_the_mesh=named, object_uvs=nums))
+    return False
 
 
 def _close2(p, q, scale=1.0):
@@ -695,6 +801,9 @@ def check_disk(rep: Report, disk: Disk, modes, geoms, collect=None):
                 if not o.ok:
                     rep.violation("C17.accepts_disk", callee, exc_kind(o), icls + (":corners" if soc else ":vertices"),
                                   dict(base, save_on_corners=soc, msg=o.msg))
+            for soc, o in ((False, oV), (True, oC)):
+                if o.ok:
+                    stored_clause(rep, o.value, "C17.stored_on_mesh", icls + (":corners" if soc else ":vertices"), dict(base, save_on_corners=soc))
             if oV.ok:
                 posV = oV.value["vertex_uv"]
                 if len(posV) != d.n or any(len(p) != 2 for p in posV):
@@ -793,6 +902,9 @@ def _hist_disk(spec):
     if spec["src"] == "zoo":
         p, f = _zoo(spec["name"])
         return spec["name"], [tuple(int(c) for c in q) for q in p], [tuple(x) for x in f]
+    if spec["src"] == "ringk":
+        p, f = X.ring_wheel(spec["n"], spec["rings"], spec["numbering"])
+        return f"ringk:{spec['n']}x{spec['rings']}:{spec['numbering']}", p, f
     if spec["src"] == "del":
         k, inner = del_inputs(spec["tier"])[spec["idx"]]
         pts = _polygon(k, True) + [tuple(q) for q in inner]
@@ -866,6 +978,9 @@ def run_history(rep: Report, d: Disk, hist, twins, dup_flag):
             rep.violation("C17.history.run_accepted", "TutteEmbedding.uvs", exc_kind(o), cls_run, dict(base, step=step, msg=o.msg))
             return
         now = o.value
+        # ---- (A0) the mesh holds, under the documented name, the coordinates of the run that was just made
+        if stored_clause(rep, now, "C17.history.mesh_attribute_is_latest_result", cls_run, dict(base, step=step, configuration=list(cfg))):
+            rep.count("hist_stored_on_mesh_ok:" + ("first" if not earlier else f"after_{rel}_storage_run"))
         # ---- (A) same coordinates as the same configuration on a fresh twin mesh
         rep.evaluations += 1
         if _same_numbers(now, twins[cfg]):
@@ -1342,6 +1457,240 @@ def run_sweep(rep: Report, task):
         rep.flag(f"sweep:{task['source']['shape']}:{len(F.border_loops(faces)[0])}")
 
 
+# ================================================================================================ dimensions added in round 5
+# (6) needle triangles (extreme aspect ratios) under cotangent weights, (7) numbering: border ids first / last / scrambled on specimens
+# whose ids exceed the hash table of a set, (8) read-only queries between reading mesh.boundary_vertices, the constructor and run(),
+# (9) user attributes whose names collide with names the library uses internally. (10) - the reading channel "attribute of the mesh
+# called uv_coords" - is part of _read / stored_clause and therefore of every family.
+NEEDLE_EXPONENTS = {"quick": (10, 14, 17, 20, 24, 27, 30, 40), "thorough": tuple(range(0, 49))}
+RINGK_SPECIMENS = {"quick": ((12, 3), (7, 5), (16, 2)), "thorough": ((12, 3), (7, 5), (16, 2), (5, 7), (18, 2), (20, 7))}     # (border length, rings)
+QUERY_SPECIMENS = {"quick": ((12, 3, "border_last"), (7, 5, "scrambled"), (16, 2, "border_last")),
+                   "thorough": tuple((n, k, nb) for (n, k) in ((12, 3), (7, 5), (16, 2), (5, 7)) for nb in X.RING_NUMBERINGS)}
+NEEDLE_ADMISSIBLE_FROM = 3      # from this stretch on the needle specimens have positive cotangent weights (exact predicate; guarded in finish)
+QUERY_SHORT = {"after_reading_boundary_vertices": "after_reading", "between_constructor_and_run": "before_run"}
+
+
+def _stretch_class(e):
+    return f":needle:stretch=2^{10 * (e // 10)}.."
+
+
+def _round5_tasks(tier):
+    thorough = tier != "quick"
+    out = []
+    # (6) needles: every size x every axis arrangement x every exponent of the tier
+    for (ncol, nrow) in X.COMB_SIZES:
+        for (swap, cyc) in X.COMB_ARRANGEMENTS:
+            out.append({"family": "needle", "size": [ncol, nrow], "swap": swap, "cyc": cyc, "exps": list(NEEDLE_EXPONENTS[tier])})
+    # (7) numbering specimens through the whole clause-by-clause check
+    for (n, k) in RINGK_SPECIMENS[tier]:
+        for nb in X.RING_NUMBERINGS:
+            out.append({"family": "ringk", "n": n, "rings": k, "numbering": nb})
+    # (8) queries: every query at either position (thorough: also every ordered pair (query after reading, query before run) on the 3-ring wheel with the border numbered last)
+    specs = [{"src": "ringk", "n": n, "rings": k, "numbering": nb} for (n, k, nb) in QUERY_SPECIMENS[tier]]
+    specs += [sp for sp in _hist_specs(tier) if sp["src"] != "zoo"][:(None if thorough else 2)]
+    for sp in specs:
+        for pos in X.QUERY_POSITIONS:
+            for lo in range(0, len(X.QUERY_NAMES), 3):
+                out.append({"family": "query", "disk": sp, "events": [[pos, q] for q in X.QUERY_NAMES[lo:lo + 3]]})
+    if thorough:
+        for q1 in X.QUERY_NAMES:
+            out.append({"family": "query", "disk": {"src": "ringk", "n": 12, "rings": 3, "numbering": "border_last"},
+                        "events": [[X.QUERY_POSITIONS[0], q1, X.QUERY_POSITIONS[1], q2] for q2 in X.QUERY_NAMES]})
+    # (9) colliding user attributes: every (container, name) pair; quick: one storage form and one timing per pair by rotation over the
+    # pair index and the disk index; thorough: all forms x all timings
+    pairs = [[c, nm] for nm in X.LIBRARY_NAMES for c in X.CONTAINERS]
+    for di, sp in enumerate(_hist_specs(tier)):
+        for lo in range(0, len(pairs), 8):
+            out.append({"family": "userattr", "disk": sp, "disk_index": di, "lo": lo, "pairs": pairs[lo:lo + 8], "all_forms": thorough})
+    return out
+
+
+def _spec_disk(spec):
+    name, ip, g = _hist_disk(spec)
+    faces = [tuple(f) for f in g]
+    ipts3 = [tuple(p) if len(p) == 3 else (p[0], p[1], 0) for p in ip]
+    assert _is_disk(faces, len(ipts3))[1], name
+    return Disk(name, ipts3, _floats(ipts3), faces)
+
+
+def _compare_with_plain(rep: Report, subcheck, cls, got, ref, detail):
+    """a custom-boundary configuration run under a deviation gives the coordinates of the plain run: there the statement fixes the result
+    completely (given border positions, interior = weighted means: one solution); on the circle / square the statement leaves the
+    position along the shape open, so those runs are judged clause by clause only. Returns the number of equal runs."""
+    same = 0
+    for key, (o, dd, _w) in sorted(got.items()):
+        r = ref.get(key)
+        if key[0] in ("circle", "square"):
+            rep.count("round5_not_compared_position_on_the_shape_not_fixed_by_the_statement")     # judged clause by clause only
+        elif r is None or not r[0].ok:
+            rep.count("round5_reference_run_missing_or_failed")       # a failing plain run is reported by check_disk itself
+        elif o.ok:
+            rep.evaluations += 1
+            if _same_numbers(o.value, r[0].value):
+                same += 1
+            else:
+                rep.violation(subcheck, "TutteEmbedding.run", "mismatch:differs_from_the_plain_run", f"{key[0]}:{key[1]}:{_storage(key[2])}" + cls,
+                              dict(detail, mode=key[0], weights=key[1], save_on_corners=key[2], got=_numbers(o.value), plain_run=_numbers(r[0].value)))
+    return same
+
+
+FOLDED_INTO_WEIGHTS = ("C17.interior.weighted_mean", "C17.orientation", "C17.accepts_disk", "C17.corner_vertex_agree")
+
+
+def _weights_probe(d: Disk, wmap):
+    """The cotangent weights the embedding is GIVEN on a mesh built exactly like the ones of the runs: off-diagonal entries of
+    operators.laplacian(mesh, cotan=True) against the exact weights. Returns (largest relative error, edge, got, want, 'angles' cached?)."""
+    import mouette as M
+    m = F.build_surface(d.fpts, d.faces)
+    cached = bool(m.face_corners.has_attribute("angles"))
+    L = M.operators.laplacian(m, cotan=True).tocsr()
+    worst = (0.0, None, None, None)
+    for (u, v), w in sorted(wmap.items()):
+        got = -float(L[u, v])
+        err = abs(got - w) / abs(w) if (w != 0 and math.isfinite(got)) else (0.0 if got == w else float("inf"))
+        if not err <= worst[0]:
+            worst = (err, (u, v), got, w)
+    return worst + (cached,)
+
+
+def run_needle(rep: Report, task):
+    """Needle triangles: one angle of about 2^-e, two just below 90 degrees; all clauses with cotangent weights (where the exact predicate
+    admits them) and with uniform weights. When a clause on the weighted means / the orientation fails under cotangent weights AND the
+    weights the operator hands to the embedding are themselves inaccurate (relative error > 1e-9 against the exact integer computation),
+    the root cause is reported once, under one coarse fingerprint (C17.cotan_weights), instead of once per mode / border length / stretch."""
+    ncol, nrow = task["size"]
+    for e in task["exps"]:
+        ipts, faces = X.comb(ncol, nrow, e, task["swap"], task["cyc"])
+        fpts = _floats(ipts)
+        assert all(int(c) == i for p, q in zip(fpts, ipts) for c, i in zip(p, q)), "needle coordinates not exact in floating point"
+        d = Disk(f"needle:{ncol}x{nrow}:2^{e}:{'swap' if task['swap'] else 'noswap'}:plane{task['cyc']}", ipts, fpts, faces)
+        verdict, wmap = cotan_admissible(ipts, d.faces, set(d.interior))
+        rep.count(f"needle_inputs:2^{e}")
+        if verdict == "ok":
+            rep.count(f"needle_admissible:2^{e}")
+            rep.flag(f"needle_admissible:swap={bool(task['swap'])}:plane={task['cyc']}")
+            if len(d.interior) >= 2:
+                rep.count(f"needle_admissible_2+_interior:2^{e}")
+        with _suffix(_stretch_class(e)):
+            check_disk(rep, d, MODES[:3], [("uniform", False, None, fpts)])
+            sub = Report()
+            sub.class_suffix = rep.class_suffix
+            check_disk(sub, d, MODES[:3], [("cotan", True, ipts, fpts)])
+        folded = [v for v in sub.violations if v["subcheck"] in FOLDED_INTO_WEIGHTS]
+        if folded:
+            o = call(_weights_probe, d, wmap)
+            rep.transitions += 1; rep.evaluations += len(wmap)
+            if o.ok and not o.value[0] <= TOL:
+                err, edge, got, want, cached = o.value
+                keys = [k for k in sub.fp_counts if k[0] in FOLDED_INTO_WEIGHTS]
+                n = sum(sub.fp_counts.pop(k) for k in keys)
+                sub.violations = [v for v in sub.violations if v["subcheck"] not in FOLDED_INTO_WEIGHTS]
+                rep.count("needle_clause_failures_folded_into_cotan_weights", n)
+                rep.violation("C17.cotan_weights", "operators.laplacian", "mismatch:inaccurate_cotangent_weights",
+                              "needle" + (":angles_cached" if cached else ""),
+                              {"mesh": d.name, "points": d.fpts, "faces": d.faces, "stretch": f"2^{e}", "edge": list(edge), "weight_got": got,
+                               "weight_exact": want, "relative_error": err, "attribute_angles_cached_on_the_mesh": cached,
+                               "clause_failures_this_explains": n, "first_clause_failure": folded[0]})
+        rep.merge(sub)
+
+
+def run_ringk(rep: Report, task):
+    ipts, faces = X.ring_wheel(task["n"], task["rings"], task["numbering"])
+    name = f"ringk:{task['n']}x{task['rings']}:{task['numbering']}"
+    m = F.build_surface(_floats(ipts), faces)
+    bv = [int(v) for v in m.boundary_vertices]
+    if bv != sorted(bv):
+        rep.flag("ringk:boundary_vertices_not_increasing")
+        rep.flag("ringk:boundary_vertices_not_increasing:" + task["numbering"])
+    rep.count("ringk_inputs:" + task["numbering"])
+    with _suffix(":numbering=" + task["numbering"]):
+        dispatch(rep, name, ipts, faces, MODES)
+
+
+def _query_hook(rep, position, q):
+    fn = X.QUERY_FN[q]
+
+    def hook(m, disk, mode):
+        if q in X.QUERY_RESETS and mode not in ("circle", "square") and position == "after_reading_boundary_vertices":
+            return       # after a documented reset the caller reads mesh.boundary_vertices again: that is the plain program
+        fn(m)
+        _QUERY_LOG.append(position + ":" + q)
+    return hook
+
+
+_QUERY_LOG = []
+
+
+def run_query(rep: Report, task):
+    """Read-only public queries (and the documented resets) between the caller's reading of mesh.boundary_vertices, the constructor and run():
+    all clauses, and the coordinates of the plain program."""
+    d = _spec_disk(task["disk"])
+    m = F.build_surface(d.fpts, d.faces)
+    bv = [int(v) for v in m.boundary_vertices]
+    unsorted = bv != sorted(bv)
+    geoms = [("uniform", False, None, d.fpts), ("cotan", True, d.ipts, d.fpts)]
+    ref = {}
+    check_disk(rep, d, MODES, geoms, ref)
+    rep.count("query_disks")
+    for ev in task["events"]:
+        hooks = {ev[i]: _query_hook(rep, ev[i], ev[i + 1]) for i in range(0, len(ev), 2)}
+        label = "+".join(f"{ev[i + 1]}@{QUERY_SHORT[ev[i]]}" for i in range(0, len(ev), 2))
+        del _QUERY_LOG[:]
+        got = {}
+        with _deviation(**hooks), _suffix(":query=" + label):
+            check_disk(rep, d, MODES, geoms, got)
+            same = _compare_with_plain(rep, "C17.queries.result_independent_of_queries", ":query=" + label, got, ref,
+                                       {"mesh": d.name, "points": d.fpts, "faces": d.faces, "queries": label, "boundary_vertices": bv})
+        for done in sorted(set(_QUERY_LOG)):
+            rep.flag("query_executed:" + done)
+            if same and unsorted:
+                rep.flag("query_executed_on_unsorted_boundary:" + done)
+        rep.count("query_events" if len(ev) == 2 else "query_event_pairs")
+        rep.count("query_runs_equal_plain", same)
+        rep.transitions += len(_QUERY_LOG)
+    if unsorted:
+        rep.flag("query:boundary_vertices_not_increasing")
+
+
+def run_userattr(rep: Report, task):
+    """A user attribute whose name collides with a name the library uses internally, on every container, in several storage forms,
+    created before / after the border bookkeeping of the mesh was first computed: all clauses, and the coordinates of the plain run."""
+    d = _spec_disk(task["disk"])
+    geoms_all = [("uniform", False, None, d.fpts), ("cotan", True, d.ipts, d.fpts)]
+    ref = {}
+    check_disk(rep, d, MODES[:3], geoms_all, ref)
+    rep.count("userattr_disks")
+    nF, nT = len(X.ATTRIBUTE_FORMS), len(X.INSTALL_TIMINGS)
+    for off, (container, name) in enumerate(task["pairs"]):
+        i = task["lo"] + off + task["disk_index"]
+        combos = ([(f, t) for f in X.ATTRIBUTE_FORMS for t in X.INSTALL_TIMINGS] if task["all_forms"]
+                  else [(X.ATTRIBUTE_FORMS[i % nF], X.INSTALL_TIMINGS[i % nT])])
+        cache = (container, name) in X.DOCUMENTED_CACHES
+        geoms = geoms_all[:1] if cache else geoms_all
+        if cache:
+            rep.count("userattr_documented_cache_uniform_weights_only")
+        for form, timing in combos:
+            written = []
+
+            def prepare(m, disk, mode):
+                written.append(X.install_with_timing(m, container, name, form, timing))
+            got = {}
+            cls = f":user_attribute={container}.{name}"
+            with _deviation(prepare=prepare), _suffix(cls):
+                check_disk(rep, d, MODES[:3], geoms, got)
+                same = _compare_with_plain(rep, "C17.user_attributes.result_independent", cls, got, ref,
+                                           {"mesh": d.name, "points": d.fpts, "faces": d.faces, "container": container, "name": name,
+                                            "storage_form": form, "created": timing})
+            rep.count("userattr_cases")
+            rep.count("userattr_runs_equal_plain", same)
+            rep.transitions += len(written)
+            if written and min(written) > 0 and same:
+                rep.flag(f"userattr:{container}.{name}")
+                rep.flag("userattr_form:" + form)
+                rep.flag("userattr_timing:" + timing)
+            rep.case(("userattr", d.fpts, d.faces, container, name, form, timing))
+
+
 # ================================================================================================ documented defaults / call forms
 # (5) argument forms of the constructor: every option omitted (one at a time / all the omittable ones together), passed by keyword,
 # passed positionally in the documented order; the embedding started by run() or by calling the object. The expectation of every form
@@ -1564,6 +1913,8 @@ def run_callforms(rep: Report, task):
                 ok = False
                 fail(subcheck, "TutteEmbedding.flat_mesh", "mismatch:flat_mesh_differs_from_the_documented_meaning", cls,
                               dict(detail, got=obs["reading"]["flat"], explicit_configuration_on_fresh_mesh=twins[cfg]["flat"]))
+            if not stored_clause(rep, obs["reading"], "C17.stored_on_mesh", "call_form", detail):
+                ok = False
             if (PROBE in obs["stdout"]) != bool(values["verbose"]):
                 ok = False
                 fail(subcheck, "TutteEmbedding.log", "mismatch:log_output", cls, dict(detail, stdout=obs["stdout"][:400]))
@@ -1645,6 +1996,14 @@ def _run_task(task, rep: Report):
         run_unit(rep, task)
     elif fam == "sweep":
         run_sweep(rep, task)
+    elif fam == "needle":
+        run_needle(rep, task)
+    elif fam == "ringk":
+        run_ringk(rep, task)
+    elif fam == "query":
+        run_query(rep, task)
+    elif fam == "userattr":
+        run_userattr(rep, task)
     elif fam == "callform":
         if task.get("what") == "signature":
             check_signature(rep)
@@ -1746,6 +2105,37 @@ def finish(tier, rep: Report):
             fails.append("no disk of the call-form sweep on which the value of the option matters: " + p)
     if rep.counters.get("callform_assignments", 0) < len(_hist_specs(tier)) * 6 or not rep.counters.get("callform_ok"):
         fails.append("call-form sweep: fewer assignments executed than 6 per disk (those that do not ask for cotangent weights)")
+    # round 5: needles, numbering, queries, colliding user attributes, reading channel
+    for e in NEEDLE_EXPONENTS[tier]:
+        if rep.counters.get(f"needle_inputs:2^{e}", 0) != len(X.COMB_SIZES) * len(X.COMB_ARRANGEMENTS):
+            fails.append(f"needle family: not every size x arrangement executed at stretch 2^{e}")
+        if e >= NEEDLE_ADMISSIBLE_FROM and not rep.counters.get(f"needle_admissible_2+_interior:2^{e}"):
+            fails.append(f"needle family: no specimen with >= 2 interior vertices and admissible cotangent weights at stretch 2^{e}")
+    for (swap, cyc) in X.COMB_ARRANGEMENTS:
+        if f"needle_admissible:swap={swap}:plane={cyc}" not in rep.flags:
+            fails.append(f"needle family: axis arrangement never admissible: swap={swap} plane={cyc}")
+    for nb in X.RING_NUMBERINGS:
+        if rep.counters.get("ringk_inputs:" + nb, 0) != len(RINGK_SPECIMENS[tier]):
+            fails.append("numbering specimens not all executed: " + nb)
+    for f in ("ringk:boundary_vertices_not_increasing:border_last", "ringk:boundary_vertices_not_increasing:scrambled", "query:boundary_vertices_not_increasing"):
+        if f not in rep.flags:
+            fails.append("coverage flag missing (no specimen whose mesh.boundary_vertices is not in increasing order): " + f)
+    for pos in X.QUERY_POSITIONS:
+        for q in X.QUERY_NAMES:
+            for what in ("query_executed:", "query_executed_on_unsorted_boundary:"):
+                if what + pos + ":" + q not in rep.flags:
+                    fails.append(f"coverage flag missing: {what}{pos}:{q}")
+    for c in X.CONTAINERS:
+        for nm in X.LIBRARY_NAMES:
+            if f"userattr:{c}.{nm}" not in rep.flags:
+                fails.append(f"colliding user attribute never installed with entries and embedded: {c}.{nm}")
+    for f in ["userattr_form:" + x for x in X.ATTRIBUTE_FORMS] + ["userattr_timing:" + x for x in X.INSTALL_TIMINGS]:
+        if f not in rep.flags:
+            fails.append("coverage flag missing: " + f)
+    for c in ("stored_on_mesh_ok", "hist_stored_on_mesh_ok:first", "hist_stored_on_mesh_ok:after_same_storage_run", "hist_stored_on_mesh_ok:after_other_storage_run",
+              "query_events", "query_runs_equal_plain", "userattr_cases", "userattr_runs_equal_plain") + (("query_event_pairs",) if tier != "quick" else ()):
+        if not rep.counters.get(c):
+            fails.append("counter is zero: " + c)
     # the exclusion of the square clause can only trigger once a side carries three border vertices
     if rep.counters.get("square_border_ok_len>=5") and not rep.counters.get("square_excluded_chord_on_one_side"):
         fails.append("square borders of length >= 5 were placed correctly but the one-side exclusion never triggered")
